@@ -61,7 +61,7 @@ PROPS = {
                 fuzz=dict(targets=["fz_construct", "fz_struct"], want=lambda sig: "non-finite" not in sig),
                 assumptions=["'violates the published schema' is judged against the schema emitted by the tree under test, walked by engine/schema_walk.h",
                              "this executable runs without sanitizers; every case runs in its own process so that SIGSEGV/abort are seen; the sanitizer/fuzzing part is run by the same check (see coverage.fuzz)"]),
-    "C13": dict(engine="rc", exe="c13", quick=(1, 6), thorough=(20, 16),
+    "C13": dict(engine="rc", exe="c13", quick=(1, 6), thorough=(20, 16), san=dict(quick=(0.25, 6), thorough=(3, 12)),
                 fuzz=dict(targets=["fz_struct"], want=lambda sig: "non-finite" in sig),
                 assumptions=["world parameters stay inside the physical domain (positive constants, dips in (0,180), thickness > 0); degenerate *parameters* belong to C12",
                              "a query may throw std::exception with a message; it may not crash, hang (120 s per case) or return NaN/Inf"]),
@@ -81,7 +81,7 @@ PROPS = {
                 assumptions=["which features contain a point is decided by the code itself on single-feature worlds (independent of the stack)",
                              "fold oracle covers uniform temperature/composition models; other models are covered by the deletion/permutation relation",
                              "velocity: only 'a slab/fault without velocity models leaves the velocity as it was' is asserted"]),
-    "C01": dict(engine="rc", exe="c01", quick=(1, 6), thorough=(15, 16),
+    "C01": dict(engine="rc", exe="c01", quick=(1, 6), thorough=(15, 16), san=dict(quick=(0.2, 6), thorough=(2, 12)),
                 assumptions=["random models are excluded (C15 covers them)", "'stand-alone' = the same entry point with a one-element list on a twin world built from the same file, plus temperature()/composition()/grains()"]),
     "C03": dict(engine="rc", exe="c03", quick=(2, 8), thorough=(20, 16),
                 assumptions=["'outside every feature' is established by construction (far points) or by the code's own tag == -1",
@@ -132,11 +132,19 @@ def load_known():
     return out
 
 
-def run_replay(exe, path, timeout=600):
+def sanitizer_summary(text):
+    """first line of an ASan / UBSan report in a log"""
+    for line in text.splitlines():
+        if "ERROR: AddressSanitizer" in line or "runtime error:" in line:
+            return line.strip()[:400]
+    return ""
+
+
+def run_replay(exe, path, timeout=600, env_extra=None):
     """returns (status, signature, known, text) with status in pass|fail|error"""
     try:
-        r = subprocess.run([exe, "--replay", path], stdout=subprocess.PIPE, stderr=subprocess.STDOUT, text=True, timeout=timeout,
-                           env=dict(os.environ, VERIF_KNOWN=KNOWN_FILE))
+        r = subprocess.run([exe, "--replay", path], stdout=subprocess.PIPE, stderr=subprocess.STDOUT, text=True, timeout=timeout, errors="replace",
+                           env=dict(os.environ, **dict(env_extra or {}, VERIF_KNOWN=KNOWN_FILE)))
     except subprocess.TimeoutExpired:
         return "error", "", False, "timeout"
     out = r.stdout
@@ -155,9 +163,13 @@ def run_replay(exe, path, timeout=600):
     return "error", "", False, out[-2000:]
 
 
-def save_replay(pid, src, label):
+def save_replay(pid, src, label, extra=None):
     os.makedirs(os.path.join(NEW_REPLAYS, pid), exist_ok=True)
     data = open(src, "rb").read()
+    if extra:
+        d = json.loads(data)
+        d.update(extra)
+        data = json.dumps(d).encode()
     h = hashlib.sha1(data).hexdigest()[:10]
     dst = os.path.join(NEW_REPLAYS, pid, "%s-%s.json" % (label, h))
     with open(dst, "wb") as f:
@@ -211,7 +223,14 @@ def check_rc(pid, cfg, tier, seed):
     for path in regress:
         if os.path.basename(path).startswith("fuzz-"):
             continue  # re-run by the fuzz stage
-        st, sig, is_known, out = run_replay(exe, path)
+        rexe, renv = exe, None
+        try:
+            if json.load(open(path)).get("flavour") == "asan":
+                rexe = os.path.join(build("asan", ["sp_" + cfg["exe"]]), "sp_" + cfg["exe"])
+                renv = dict(ASAN_OPTIONS="detect_leaks=0:abort_on_error=1", VERIF_TMP=tmpbase)
+        except (ValueError, OSError):
+            pass
+        st, sig, is_known, out = run_replay(rexe, path, env_extra=renv)
         n_regress += 1
         if st == "fail":
             if is_known:
@@ -307,6 +326,54 @@ def check_rc(pid, cfg, tier, seed):
                 if k["status"] == "known" and k["signature"] == sig:
                     known_lines[sig] = k["what"]
 
+    # 4a. sanitizer stage: the same generators and oracles, executable built with ASan+UBSan (flavour asan, target sp_<exe>)
+    san_cov = None
+    if cfg.get("san"):
+        smult, sprocs = cfg["san"][tier]
+        sdir = build("asan", ["sp_" + cfg["exe"]])
+        sexe = os.path.join(sdir, "sp_" + cfg["exe"])
+        swork = os.path.join(work, "san")
+        os.makedirs(swork, exist_ok=True)
+        senv = dict(env_base, VERIF_MULT=str(smult), VERIF_OUT=swork, ASAN_OPTIONS="detect_leaks=0:abort_on_error=1:symbolize=1", UBSAN_OPTIONS="print_stacktrace=1")
+        t1 = time.time()
+        srun = []
+        for i in range(min(sprocs, NCPU)):
+            env = dict(senv, VERIF_SEED=str(seed * 1000 + 500 + i), VERIF_TAG="s%d" % i)
+            logf = open(os.path.join(swork, "s%d.log" % i), "w")
+            srun.append((i, subprocess.Popen([sexe] + cfg.get("args", []), env=env, stdout=logf, stderr=subprocess.STDOUT), logf))
+        san_cov = dict(flavour="clang ASan+UBSan (-fno-sanitize-recover)", processes=len(srun), evaluations=0, failures=0)
+        for i, p, logf in srun:
+            p.wait()
+            logf.close()
+            frag = os.path.join(swork, "s%d.frag.json" % i)
+            logtxt = open(os.path.join(swork, "s%d.log" % i), errors="replace").read()
+            if not os.path.exists(frag):
+                cur = os.path.join(swork, "s%d.current.json" % i)
+                if os.path.exists(cur) and all(run_replay(sexe, cur, env_extra=senv)[0] == "fail" for _ in range(3)):
+                    dst = save_replay(pid, cur, "sanitizer-crash", extra=dict(flavour="asan"))
+                    violations.append((dst, "sanitizer build aborted and the saved case reproduces it: " + sanitizer_summary(logtxt)))
+                else:
+                    notes.append("sanitizer process s%d ended with status %s without a reproducible case: %s" % (i, p.returncode, logtxt[-400:]))
+                continue
+            d = json.load(open(frag))
+            for name, sm in d["subs"].items():
+                san_cov["evaluations"] += int(sm["evaluations"])
+                if sm["status"] == "fail" and os.path.exists(sm["failure_file"]):
+                    ff = sm["failure_file"]
+                    sig = sm.get("failure_signature", "")
+                    # a failure the release build shows as well is reported by stage 2; here only what needs the sanitizer
+                    rel_fails = run_replay(exe, ff)[0] == "fail"
+                    if rel_fails:
+                        continue
+                    res = [run_replay(sexe, ff, env_extra=senv) for _ in range(3)]
+                    if all(x[0] == "fail" for x in res):
+                        san_cov["failures"] += 1
+                        dst = save_replay(pid, ff, "sanitizer-" + name, extra=dict(flavour="asan"))
+                        violations.append((dst, "only under ASan/UBSan: %s %s" % (sm.get("failure_message", sig), sanitizer_summary(res[0][3] + logtxt))))
+                    else:
+                        notes.append("sanitizer stage: %s failure did not reproduce 3x: inconclusive" % name)
+        san_cov["wall_s"] = round(time.time() - t1, 1)
+
     # 4b. libFuzzer stage (asan flavour) for the properties that have one
     fuzz_cov = None
     if cfg.get("fuzz"):
@@ -338,6 +405,11 @@ def check_rc(pid, cfg, tier, seed):
                            classes=m["classes"]) for n, m in subs.items()},
         notes=notes,
     )
+    if san_cov:
+        coverage["sanitizer_stage"] = san_cov
+    if san_cov:
+        coverage["sanitizer_stage"] = san_cov
+        coverage["evaluations"] += san_cov["evaluations"]
     if fuzz_cov:
         coverage["fuzz"] = fuzz_cov
         coverage["evaluations"] += sum(fuzz_cov["executions"].values())
@@ -392,8 +464,12 @@ def cmd_replay(path):
         tmpbase = "/dev/shm/wbv-%d" % os.getpid() if os.path.isdir("/dev/shm") else os.path.join(WORK, "tmp-%d" % os.getpid())
         os.makedirs(tmpbase, exist_ok=True)
         os.environ["VERIF_TMP"] = tmpbase
+        rexe, renv = os.path.join(bdir, cfg["exe"]), None
+        if d.get("flavour") == "asan":
+            rexe = os.path.join(build("asan", ["sp_" + cfg["exe"]]), "sp_" + cfg["exe"])
+            renv = dict(ASAN_OPTIONS="detect_leaks=0:abort_on_error=1")
         try:
-            st, sig, known, out = run_replay(os.path.join(bdir, cfg["exe"]), os.path.abspath(path))
+            st, sig, known, out = run_replay(rexe, os.path.abspath(path), env_extra=renv)
         finally:
             shutil.rmtree(tmpbase, ignore_errors=True)
         print(out.strip())
